@@ -24,8 +24,8 @@ type textOpts struct {
 // with white space, never containing a line terminator or "-->".
 func genText(r *fw.Rand, o textOpts) string {
 	n := r.Range(1, max(1, o.maxWords))
-	if r.P(1, 120) {
-		n = r.Range(900, 3000) // a very long line (4.5 to 15 kB): longer than any fixed-size buffer on the way
+	if r.P(1, 300) {
+		n = r.Range(900, 1800) // a very long line (4.5 to 9 kB): longer than any fixed-size buffer on the way
 	}
 	var parts []string
 	for i := 0; i < n; i++ {
